@@ -651,13 +651,23 @@ def try_to_hashable(
         return UnhashableError
 
 
+def _sorted(items: Iterable, key: Callable[[Any], Any] = lambda x: x) -> list:
+    """Sort items, also if they are not mutually comparable (e.g., `int` and `str`)."""
+    items = list(items)
+    try:
+        return sorted(items, key=key)
+    except TypeError:
+        # Fall back to a canonical order that does not depend on the iteration order
+        return sorted(items, key=lambda x: (type(key(x)).__qualname__, repr(key(x))))
+
+
 def _hashable_iterable(
     iterable: Iterable,
     fallback_to_pickle: bool,  # noqa: FBT001
     *,
     sort: bool = False,
 ) -> tuple:
-    items = sorted(iterable) if sort else iterable
+    items = _sorted(iterable) if sort else iterable
     return tuple(to_hashable(item, fallback_to_pickle) for item in items)
 
 
@@ -667,7 +677,7 @@ def _hashable_mapping(
     *,
     sort: bool = False,
 ) -> tuple:
-    items = sorted(mapping.items()) if sort else mapping.items()
+    items = _sorted(mapping.items(), key=lambda kv: kv[0]) if sort else mapping.items()
     return tuple((k, to_hashable(v, fallback_to_pickle)) for k, v in items)
 
 
@@ -728,7 +738,7 @@ def to_hashable(  # noqa: C901, PLR0911, PLR0912
         )
         return (m, tp, data)
     if isinstance(obj, collections.Counter):
-        return (m, tp, tuple(sorted(obj.items())))
+        return (m, tp, tuple(_sorted(obj.items(), key=lambda kv: kv[0])))
     if isinstance(obj, dict):
         return (m, tp, _hashable_mapping(obj, fallback_to_pickle, sort=True))
     if isinstance(obj, set | frozenset):
